@@ -70,6 +70,12 @@ def instances(tier):
             base = cls(*[P(i) for i in range(npar)], wires=wires[1:])
             return _controlled(base, [wires[0]], [1])
         out.append((f"ctrl({bname})", npar, mk, nb + 1))
+    # a controlled global phase is a phase shift on its control wire
+    out.append(("ctrl(GlobalPhase)", 1, (lambda P, wires: _controlled(qp.GlobalPhase(P(0)), [wires[0]], [1])), 1))
+    # permutations (SWAP group, arbitrary arity): the three kinds of non-trivial permutations of 3 wires and the transposition
+    for perm in ((1, 0), (1, 2, 0), (0, 2, 1), (2, 1, 0)):
+        out.append((f"Permute{list(perm)}".replace(" ", ""), 0, (lambda P, wires, perm=perm: qp.Permute([wires[j] for j in perm], wires=wires)), len(perm)))
+    out.append(("ctrl(Permute[1,2,0])", 0, (lambda P, wires: _controlled(qp.Permute([wires[2], wires[3], wires[1]], wires=wires[1:]), [wires[0]], [1])), 4))
     return out
 
 
